@@ -99,9 +99,17 @@ Definition fval_ok (v : fval) : bool :=
               forallb (fun kv => (len (fst kv) <? two31) && (len (snd kv) <? two31)) l
   end.
 
+(* bytes are bytes *)
+Definition fval_wf (v : fval) : bool :=
+  match v with
+  | FStr s => wfbb s
+  | FI32 _ => true
+  | FMap l => forallb (fun kv => wfbb (fst kv) && wfbb (snd kv)) l
+  end.
+
 Definition ritem_ok (sch : schema) (it : ritem) : bool :=
   match it with
-  | Known id v => in_schema sch id (fty v) && fval_ok v
+  | Known id v => in_schema sch id (fty v) && fval_ok v && fval_wf v
   | Unknown t id v =>
       ThriftGrammar.wt t v && (ThriftGrammar.ch v <=? 63)%nat && (id <? two16) &&
       negb (in_schema sch (i16 id) (i8 t))
